@@ -34,6 +34,11 @@ where Q::UnitType: LinearScaledUnit {
         println!("{} fit{} {}", feat, i, sq(Q::_fit(k * u.scale())));
         println!("{} fmt{} {} | {:>12.3}", feat, i, x, y);
     }
+    // formatting of signed and zero amounts (negative zero with binary floats)
+    let nz = Q::new(Amnt!(0.0) * Amnt!(-1.0), units[0]);
+    let neg = Q::new(Amnt!(2.5) * Amnt!(-1.0), units[units.len() - 1]);
+    let zero = Q::new(Amnt!(0.0), units[0]);
+    println!("{} fmtsign {} | {:+} | {:9.2} | {} | {:+.1} | {:<10} | {} | {:+}", feat, nz, nz, nz, neg, neg, neg, zero, zero);
 }
 
 fn main() {
